@@ -17,7 +17,8 @@ import (
 // loads them the way the application does (files resolved relative to the working directory). Single-threaded callers
 // only (the working directory is process-wide). flavour: "unit" (unit word vectors), "scaled" (lengths 0.3-7),
 // "non-finite" (a few NaN / +Inf / -Inf components), "huge" (components around 1e38: sums overflow float32), "cased" (the
-// vocabulary also holds capitalised and upper-case spellings of some words, with vectors of their own).
+// vocabulary also holds capitalised and upper-case spellings of some words, with vectors of their own), "partial" (a third of the
+// database's words are missing from the word table).
 func attachEmbeddings(ctx *Ctx, r *rand.Rand, db *database.Database, flavour string) bool {
 	return attachEmbeddingsExtra(ctx, r, db, flavour, nil)
 }
@@ -61,6 +62,9 @@ func attachEmbeddingsExtra(ctx *Ctx, r *rand.Rand, db *database.Database, flavou
 		}
 	}
 	for _, w := range vlib.DBWords(db.Commands) {
+		if flavour == "partial" && r.Intn(3) == 0 {
+			continue // a word table that does not know every word of the database (no general-purpose table does)
+		}
 		scale := 1.0
 		if flavour != "unit" {
 			scale = []float64{0.3, 1, 2.5, 7}[r.Intn(4)]
